@@ -149,6 +149,10 @@ class Adjoint(Sub):
                 e = float(np.abs(R.mat4(lt, A_) - R.mat4(lt, B_)).max())
                 rec.notes["ident"] = max(rec.notes.get("ident", 0), e / tolI)
                 rec.check(e <= tolI, "identity:%s:%s" % (lt, dtype), lambda: "%s violated by %.3g (tol %.3g) X=%s a=%s" % (nm, e, tolI, Xs[i].tolist(), As[i].tolist()))
+        # the same OBJECT again after its values changed in place (what add_ / an optimiser step does): must equal the operation on a
+        # fresh tensor holding the new values.  (A matrix cached on the object and never invalidated is invisible to every single
+        # call - seeds C01d, C05e.)
+        _reuse(rec, lt, X, lambda Z: (Z.Adj(at), Z.AdjT(at)), "Adj/AdjT")
 
     def simplify(self, case):
         if case["sx"] or case["sa"]:
@@ -322,6 +326,27 @@ class AlgebraAdd(Sub):
             rec.check(y is x, "inplace_identity", "add_ did not return self")
 
 
+def _reuse(rec, lt, X, op, name):
+    """op(X) was just evaluated; overwrite X in place with other valid elements (the inverses, from the reference algebra), evaluate
+    again on the same object and on a fresh tensor with the same values: both must agree to the last bit (same code, same data)"""
+    if X.numel() == 0:
+        return
+    d = R.GDIM[lt]
+    new = np.stack([R.inv(lt, row) for row in tu.npy(X.tensor()).reshape(-1, d)], 0).reshape(tuple(X.shape))
+    newt = torch.tensor(new, dtype=X.dtype)
+    with rec.sut(name + " after an in-place change of X"):
+        with torch.no_grad():
+            X.tensor().copy_(newt)
+        again = op(X)
+        fresh = op(pp.LieTensor(newt.clone(), ltype=X.ltype))
+    rec.label("reuse:" + name)
+    for g, f in zip(again, fresh):
+        gt, ft = (g.tensor() if isinstance(g, pp.LieTensor) else g), (f.tensor() if isinstance(f, pp.LieTensor) else f)
+        rec.check(gt.shape == ft.shape and bool(torch.allclose(gt, ft, rtol=0, atol=0, equal_nan=True)), "reuse:" + name.split("/")[0] + ":" + lt,
+                  lambda: "%s of an element whose values were changed in place differs from %s of a fresh element with the same values (max diff %.3g): a result "
+                  "cached on the object?" % (name, name, float((gt - ft).abs().max()) if gt.shape == ft.shape and gt.numel() else float("nan")))
+
+
 class Jinvp(Sub):
     name = "jinvp"
 
@@ -397,6 +422,8 @@ class Jinvp(Sub):
                 rec.notes["jinvp:" + lt] = max(rec.notes.get("jinvp:" + lt, 0), err / tol)
             rec.check(err <= tol, "jinvp:%s:%s" % (lt, dtype), lambda: "Jinvp(X,p) = %s vs Jl(Log X)^-1 p = %s (err %.3g tol %.3g) X=%s p=%s"
                       % (yn[i].tolist(), want.tolist(), err, tol, Xs[i].tolist(), Ps[i].tolist()))
+        arg_ = p if case["lie_p"] else p.tensor()
+        _reuse(rec, lt, X, lambda Z: (Z.Jinvp(arg_),), "Jinvp")
 
     def simplify(self, case):
         if case["sx"] or case["sp"]:
